@@ -200,7 +200,7 @@ pub fn option() -> BoxedStrategy<Glob> {
 pub fn run(ctx: &Ctx) -> Report {
     let cases = ctx.tier.pick(400_000u32, 4_000_000u32);
     let shards = 16;
-    let total = run_shards(shards, |shard| {
+    let mut total = run_shards(shards, |shard| {
         let mut st = Stats::new();
         poison_parses(40);
         let leaf = prop_oneof![6 => gen::supported_leaf(), 1 => gen::text_leaf(), 3 => option().prop_map(E::G)];
@@ -215,6 +215,25 @@ pub fn run(ctx: &Ctx) -> Report {
         run_prop(&mut st, ctx.seed, "C13", shard as u64, cases / shards as u32, &strat, |(l, t, c)| judge(l, t, c), |(l, t, c)| case_json(l, t, c));
         st
     });
+    // interaction triples: three leaf kinds (every kind of primary, options too) under every operator
+    // skeleton, after no leading run or a short one, canonical or in a layout variant
+    let mut kinds = crate::combo::all_kinds();
+    kinds.push(E::G(Glob::Depth));
+    kinds.push(E::G(Glob::Threads(4)));
+    kinds.push(E::G(Glob::Threads(0)));
+    let case_of = |t: &E| -> (Vec<Glob>, Option<E>, Vec<u16>) {
+        let h = stable_hash(t);
+        let t = if matches!(t.leaves().first(), Some(E::G(_))) { E::and(E::T(Tst::Name("first".into())), t.clone()) } else { t.clone() };
+        let leading = match h % 4 {
+            0 => vec![Glob::Threads(2)],
+            1 => vec![Glob::Depth, Glob::Threads(9)],
+            _ => vec![],
+        };
+        let choices: Vec<u16> = if (h >> 8) % 2 == 0 { vec![] } else { (0..40u32).map(|i| (stable_hash(&(h, i)) & 0xffff) as u16).collect() };
+        (leading, Some(t), choices)
+    };
+    let tr = crate::combo::run_triples(ctx.seed, &kinds, ctx.tier.pick(64, 4), |t| { let (l, t, c) = case_of(t); judge(&l, &t, &c) }, |t| { let (l, t, c) = case_of(t); case_json(&l, &t, &c) });
+    total.merge(tr);
     Report {
         stats: total,
         rule: "random expressions over the keyword vocabulary in which -depth, -threads N, -maxdepth N, -mindepth N also occur as leaves (middle, inside parentheses, after '!', last), preceded by a leading run of 0..9 options, rendered canonically or through the layout variant grammar (separators, operator spellings, quoting, zero-padded numbers - also in the leading run; three-value pool so that a value returns after being overridden: A, B, A). Model: depth = any -depth; threads = value of the last -threads in textual order; expected tree = expression with every option leaf replaced by -true (a leading run leaves it untouched; only options -> -true); no option node in the returned tree; fifth argument of the emitted lipe-scan = N or (lipe-getopt-thread-count). Any -maxdepth/-mindepth: the input must be rejected with an error or the limit must show in the returned options; never a panic, never silently ignored. Non-trivial: an option outside the leading run, or a repeated option. Distinct: by (leading run, tree, layout choices).".into(),
